@@ -267,6 +267,7 @@ func TestC19_PeerVersion(t *testing.T) { pbt.Run(t, "C19", "peerversion", genC19
 
 type c19Transfer struct {
 	A, B       []byte // version sets of the two instances (subsets of {0,1})
+	NoSlot     bool   // B has no inbound transfer slot: its answer is "everything declined", in the encoding of the common version
 	Prior      []byte // non-empty: the asker ran with this version set before (same identity and endpoint), contacted B, and restarted with A
 	ContentLen int    // FINDCONTENT payload size (> inline threshold => uTP)
 	Items      []int  // offered item sizes
@@ -284,7 +285,7 @@ func genC19Transfer(t *rapid.T) c19Transfer {
 	if rapid.IntRange(0, 2).Draw(t, "hasprior") == 0 {
 		prior = rapid.SampledFrom([][]byte{{0}, {1}, {0, 1}}).Draw(t, "prior")
 	}
-	return c19Transfer{A: rapid.SampledFrom(sets).Draw(t, "a"), B: rapid.SampledFrom(sets).Draw(t, "b"), Prior: prior,
+	return c19Transfer{A: rapid.SampledFrom(sets).Draw(t, "a"), B: rapid.SampledFrom(sets).Draw(t, "b"), Prior: prior, NoSlot: rapid.IntRange(0, 4).Draw(t, "noslot") == 0,
 		ContentLen: rapid.SampledFrom([]int{1200, 1500, 4000, 30000, 120000}).Draw(t, "clen"), Items: items}
 }
 
@@ -302,7 +303,11 @@ func contentKey(i int) []byte {
 
 func runC19Transfer(p c19Transfer, c *stats.Case) error {
 	hub := simnet.NewHub()
-	b, err := pp.NewLive(hub, pp.LiveOpts{KeyIdx: 12, Port: nextPort(), Versions: p.B, UtpFast: true})
+	maxUtp := 0
+	if p.NoSlot {
+		maxUtp = -1
+	}
+	b, err := pp.NewLive(hub, pp.LiveOpts{KeyIdx: 12, Port: nextPort(), Versions: p.B, UtpFast: true, MaxUtp: maxUtp})
 	if err != nil {
 		return fmt.Errorf("harness: %v", err)
 	}
@@ -410,6 +415,16 @@ func runC19Transfer(p c19Transfer, c *stats.Case) error {
 			return nil
 		}
 		return fmt.Errorf("sets %v/%v share version %d but the offer failed: %v", p.A, p.B, common, oerr)
+	}
+	if p.NoSlot {
+		// the answer was understood (no error above): nothing was accepted, so nothing may arrive
+		select {
+		case el := <-b.Queue:
+			return fmt.Errorf("B has no transfer slot but %d items were transferred", len(el.Contents))
+		case <-time.After(200 * time.Millisecond):
+		}
+		c.NT(fmt.Sprintf("all-declined-for-lack-of-a-slot:version=%d", common))
+		return nil
 	}
 	select {
 	case el := <-b.Queue:
